@@ -112,3 +112,27 @@ pub fn sweep(args: &[&str]) -> String {
     }
     "OK".into()
 }
+
+/// kind `blockhdr <n>` — a definite-length block of n payload bytes: the header must state the payload length
+/// (`#<d><len>` with d = number of digits of len), the whole text must be header + payload, and the library's own
+/// tokenizer must read it back as a block of n bytes.  Blocks of 10^9 bytes and more must be refused, not mangled.
+pub fn blockhdr(args: &[&str]) -> String {
+    let n: usize = args[0].parse().unwrap();
+    let payload = vec![b'x'; n];
+    let mut out: Vec<u8> = Vec::new();
+    let r = Arbitrary(&payload).format_response_data(&mut out);
+    if n >= 1_000_000_000 {
+        return match r { Err(_) => "OK".into(), Ok(()) => format!("FAIL a block of {} bytes was written with header {}", n, hex(&out[..out.len().min(12)])) };
+    }
+    if let Err(e) = r { return format!("FAIL format error {}", show_error(&e)); }
+    let len = n.to_string();
+    let want_hdr = format!("#{}{}", len.len(), len);
+    if out.len() != want_hdr.len() + n || &out[..want_hdr.len()] != want_hdr.as_bytes() {
+        return format!("FAIL header {} for a payload of {} bytes (total {})", hex(&out[..out.len().min(14)]), n, out.len());
+    }
+    let mut t = Tokenizer::new_params(&out);
+    match t.next() {
+        Some(Ok(scpi::parser::tokenizer::Token::ArbitraryBlockData(p))) if p.len() == n => "OK".into(),
+        other => format!("FAIL reads back as {:?}", other.map(|x| x.map(|_| "another token").map_err(|e| e.get_code()))),
+    }
+}
